@@ -1,13 +1,13 @@
 (* C20  Invalid requests are refused without side effects.
    In the model every mutator returns Ok new_state or Err; a run keeps the previous state on Err. The theorems say exactly which requests
    are refused (so the listed invalid kinds are all covered, in every reachable state) and that a refused request is invisible in any history.
-   The tie to the code is the correspondence run and, for the ORDER of validation and mutation inside seven mutators (lending_move, borrowing_move,
-   chip_transfer, set_fire, add_edge, set_firings, update_firings), the C20_source_* theorems below about the methods translated from the current
+   The tie to the code is the correspondence run and, for the ORDER of validation and mutation inside eight mutators (lending_move, borrowing_move,
+   chip_transfer, set_fire, add_edge, set_firings, update_firings, set_orientation), the C20_source_* theorems below about the methods translated from the current
    source: an exception never leaves a changed dictionary behind. *)
 From Coq Require Import ZArith List Bool Lia Arith.
 Import ListNotations.
 From Coq Require Import Permutation.
-From CF Require Import ZSum ListAux Defs Core Machines MachinesLink PyDict ImpRep TranslatedImpCFDivisor ImpLinkDiv TranslatedImpCFGraph ImpLinkGraph TranslatedImpCFiringScript ImpLinkScript.
+From CF Require Import ZSum ListAux Defs Core Machines MachinesLink PyDict ImpRep TranslatedImpCFDivisor ImpLinkDiv TranslatedImpCFGraph ImpLinkGraph TranslatedImpCFiringScript ImpLinkScript OrientLink TranslatedImpCFOrientation ImpLinkOrient.
 Open Scope Z_scope.
 
 (* graph: refused exactly on a loop, a non-positive multiplicity or an unknown endpoint *)
@@ -101,6 +101,12 @@ Proof. intros n vs sd s v k st Hv Hs. split; intros E.
   - pose proof (set_firings_refines n vs sd s v k Hv Hs) as H. rewrite E in H. apply H.
   - pose proof (update_firings_refines n vs sd s v k Hv Hs) as H. rewrite E in H. apply H. Qed.
 Print Assumptions C20_source_script_refused_without_effect.
+Theorem C20_source_set_orientation_refused_without_effect : forall g, wfb g = true -> forall gg, rep_graph gg g -> forall oo outd ind isf isfc s a b st e,
+  oinv g s -> rep_ostate g oo outd ind isf isfc s -> (st = 0 \/ st = 1 \/ st = 2) ->
+  CFOrientation_set_orientation oo gg outd ind isf isfc a b st = PyExn e -> e = (outd, ind, oo, isf, isfc) /\ set_orientation g s a b st = Err.
+Proof. intros g Hwf gg Hgg oo outd ind isf isfc s a b st e Hi HR Hst E. pose proof (set_orientation_refines g Hwf gg Hgg oo outd ind isf isfc s a b st Hi HR Hst) as H.
+  rewrite E in H. destruct H as [H1 H2]. split; assumption. Qed.
+Print Assumptions C20_source_set_orientation_refused_without_effect.
 Example C20_source_nonvacuous : let g := [[0;2;1];[2;0;0];[1;0;0]] in
   CFDivisor_set_fire (dict_of_graph g) (dict_of_div [1;-1;0]) (@rev nat) [1;7]%nat = PyExn (dict_of_div [1;-1;0]) /\
   CFDivisor_chip_transfer (dict_of_div [1;-1;0]) 0%nat 5%nat 2 = PyExn (dict_of_div [1;-1;0]).
